@@ -35,23 +35,56 @@
     exactly as in the code (so they consume a transaction id and honour row locks);
   * time is the explicit `now` (milliseconds), advanced only by `tick`.
 
-  Values are `Int` (non-null); a table has `ncols` Int columns.  Not modelled: other value
+  Values are `Val` (non-null); a table has `ncols` Val columns.  Not modelled: other value
   types, NULLs, constraints, `_id` indexes, drop_table, the b-tree entry cap, durable mode.
 -/
 namespace Neumann.RelTx
+
+/-! ## values -/
+
+/-- a column value: `Value::Null` or `Value::Int` (the other column types behave like `Int` with their
+    own order; they are not modelled) -/
+inductive Val where
+  | null
+  | int (v : Int)
+deriving DecidableEq, Repr, Inhabited
+
+instance (n : Nat) : OfNat Val n := ⟨.int n⟩
+
+/-- `Value::partial_cmp_value` = `Less`: defined between two non-null values only, so a comparison
+    with NULL on either side is false (`compare_ord`) -/
+def Val.lt : Val → Val → Bool
+  | .int a, .int b => decide (a < b)
+  | _, _ => false
+
+/-- `compare_ord_le`: `partial_cmp_value` is defined and is not `Greater` -/
+def Val.le : Val → Val → Bool
+  | .int a, .int b => decide (a ≤ b)
+  | _, _ => false
+
+/-- the order of the b-tree keys (`OrderedKey`, derived `Ord`): `Null` sorts before every number -/
+def Val.keyLt : Val → Val → Bool
+  | .null, .null => false
+  | .null, .int _ => true
+  | .int _, .null => false
+  | .int a, .int b => decide (a < b)
+
+def Val.keyLe (a b : Val) : Bool := !(Val.keyLt b a)
 
 /-! ## tables -/
 
 structure Row where
   alive : Bool
-  vals : List Int
+  vals : List Val
 deriving DecidableEq, Repr, Inhabited
 
 /-- one index entry: `(column, key, slab row id)` -/
-abbrev Entry := Nat × Int × Nat
+abbrev Entry := Nat × Val × Nat
 
 structure Table where
   ncols : Nat
+  /-- the columns declared `.nullable()`; every other column refuses NULL (`NullNotAllowed`) -/
+  nullable : List Nat := []
   rows : List Row
   hashOn : List Nat
   btreeOn : List Nat
@@ -71,19 +104,20 @@ def idxRemove (e : Entry) (es : List Entry) : List Entry :=
 def idxDropCol (c : Nat) (es : List Entry) : List Entry :=
   es.filter (fun x => x.1 ≠ c)
 
-def val (vals : List Int) (c : Nat) : Int := vals.getD c 0
+/-- the value of column `c` (`slab_row.get(idx).map_or(Value::Null, …)`) -/
+def val (vals : List Val) (c : Nat) : Val := vals.getD c .null
 
 /-! ## conditions -/
 
 inductive Cond where
   | all
-  | idEq (id : Nat)            -- `Eq("_id", Int(id+1))`, id = slab id
-  | eq (c : Nat) (v : Int)
-  | ne (c : Nat) (v : Int)     -- `Ne(col, v)`: a row without the column satisfies it
-  | lt (c : Nat) (v : Int)
-  | le (c : Nat) (v : Int)
-  | gt (c : Nat) (v : Int)
-  | ge (c : Nat) (v : Int)
+  | idEq (id : Nat)            -- `Eq("_id", Val(id+1))`, id = slab id
+  | eq (c : Nat) (v : Val)
+  | ne (c : Nat) (v : Val)     -- `Ne(col, v)`: a row without the column satisfies it
+  | lt (c : Nat) (v : Val)
+  | le (c : Nat) (v : Val)
+  | gt (c : Nat) (v : Val)
+  | ge (c : Nat) (v : Val)
   | and (a b : Cond)           -- `And(a, b)`
   | or (a b : Cond)            -- `Or(a, b)`
 deriving DecidableEq, Repr
@@ -91,7 +125,7 @@ deriving DecidableEq, Repr
 /-- `Condition::evaluate` on row `id` with values `vals`; a missing column compares false
     (`Ne`: true).  `And` / `Or` evaluate both sides (`&&` / `||`; the depth limit of
     `evaluate_with_depth`, 64 by default, is not modelled) -/
-def evalCond (cond : Cond) (id : Nat) (vals : List Int) : Bool :=
+def evalCond (cond : Cond) (id : Nat) (vals : List Val) : Bool :=
   match cond with
   | .all => true
   | .idEq j => id == j
@@ -99,10 +133,10 @@ def evalCond (cond : Cond) (id : Nat) (vals : List Int) : Bool :=
   | .ne c v => match vals[c]? with | some x => x != v | none => true
   | .and a b => evalCond a id vals && evalCond b id vals
   | .or a b => evalCond a id vals || evalCond b id vals
-  | .lt c v => match vals[c]? with | some x => decide (x < v) | none => false
-  | .le c v => match vals[c]? with | some x => decide (x ≤ v) | none => false
-  | .gt c v => match vals[c]? with | some x => decide (x > v) | none => false
-  | .ge c v => match vals[c]? with | some x => decide (x ≥ v) | none => false
+  | .lt c v => match vals[c]? with | some x => Val.lt x v | none => false
+  | .le c v => match vals[c]? with | some x => Val.le x v | none => false
+  | .gt c v => match vals[c]? with | some x => Val.lt v x | none => false
+  | .ge c v => match vals[c]? with | some x => Val.le v x | none => false
 
 /-- ids (slab) of the live rows satisfying `cond`, ascending: `scan_all` + filter -/
 def matching (T : Table) (cond : Cond) : List Nat :=
@@ -115,11 +149,11 @@ def matching (T : Table) (cond : Cond) : List Nat :=
 
 inductive Undo where
   /-- `InsertedRow { row_id, index_entries }` -/
-  | inserted (t row : Nat) (idx : List (Nat × Int))
+  | inserted (t row : Nat) (idx : List (Nat × Val))
   /-- `UpdatedRow { row_id, old_values, index_changes }`, a change is `(col, old, new)` -/
-  | updated (t row : Nat) (old : List Int) (chg : List (Nat × Int × Int))
+  | updated (t row : Nat) (old : List Val) (chg : List (Nat × Val × Val))
   /-- `DeletedRow { row_id, old_values, index_entries }` -/
-  | deleted (t row : Nat) (old : List Int) (idx : List (Nat × Int))
+  | deleted (t row : Nat) (old : List Val) (idx : List (Nat × Val))
 deriving DecidableEq, Repr
 
 inductive Phase where
@@ -147,6 +181,22 @@ inductive Res where
   | okN (n : Nat)
   | err (e : Err)
 deriving DecidableEq, Repr
+
+/-- `tx_insert` / `insert` validation: a value for every column (`vals` lists the columns in schema
+    order; an omitted column and an explicit `Value::Null` are both `.null`), and NULL only in
+    nullable columns — otherwise `NullNotAllowed` (harness class `bad_input`) -/
+def rowBad (T : Table) (vals : List Val) : Bool :=
+  decide (vals.length ≠ T.ncols) ||
+    (List.range T.ncols).any fun c => val vals c == .null && !(T.nullable.contains c)
+
+/-- `tx_update` / `update` validation: every named column exists (`ColumnNotFound`) and NULL is assigned
+    to nullable columns only (`NullNotAllowed`).  The code checks the SET list entry by entry in hash-map
+    order, so a list with both faults may report either; the streams never put both in one statement. -/
+def updBad (T : Table) (upd : List (Nat × Val)) : Bool :=
+  upd.any (fun p => decide (p.1 ≥ T.ncols)) || upd.any (fun p => p.2 == .null && !(T.nullable.contains p.1))
+
+def updErr (T : Table) (upd : List (Nat × Val)) : Err :=
+  if upd.any (fun p => decide (p.1 ≥ T.ncols)) then .columnNotFound else .badInput
 
 structure State where
   ntables : Nat
@@ -226,26 +276,26 @@ def commit (s : State) (tx : Nat) : State × Res :=
 
 /-! ## transactional statements -/
 
-def updGet (upd : List (Nat × Int)) (c : Nat) : Option Int :=
+def updGet (upd : List (Nat × Val)) (c : Nat) : Option Val :=
   match upd with
   | [] => none
   | (c', v) :: rest => if c' = c then some v else updGet rest c
 
 /-- `slab.update_row`: columns named in `upd` get the new value -/
-def applyUpdFrom (upd : List (Nat × Int)) : Nat → List Int → List Int
+def applyUpdFrom (upd : List (Nat × Val)) : Nat → List Val → List Val
   | _, [] => []
   | c, v :: vs => (match updGet upd c with | some n => n | none => v) :: applyUpdFrom upd (c + 1) vs
 
-def applyUpd (upd : List (Nat × Int)) (vals : List Int) : List Int := applyUpdFrom upd 0 vals
+def applyUpd (upd : List (Nat × Val)) (vals : List Val) : List Val := applyUpdFrom upd 0 vals
 
-def txInsert (s : State) (tx t : Nat) (vals : List Int) : State × Res :=
+def txInsert (s : State) (tx t : Nat) (vals : List Val) : State × Res :=
   match gate s tx with
   | some e => (s, .err e)
   | none =>
     match s.tables t with
     | none => (s, .err .tableNotFound)
     | some T =>
-      if vals.length ≠ T.ncols then (s, .err .badInput)
+      if rowBad T vals then (s, .err .badInput)
       else
         let id := T.rows.length
         -- `let _ = lock_manager().try_lock(tx, [(t, id)])`: a conflict is discarded — the row
@@ -258,7 +308,7 @@ def txInsert (s : State) (tx t : Nat) (vals : List Int) : State × Res :=
         (recordUndo (setTable s1 t T') tx (.inserted t id idx), .okN id)
 
 /-- per-row body of `tx_update` (undo record, index maintenance, slab update) -/
-def updateRow (tx t : Nat) (upd : List (Nat × Int)) (s : State) (i : Nat) : State :=
+def updateRow (tx t : Nat) (upd : List (Nat × Val)) (s : State) (i : Nat) : State :=
   match s.tables t with
   | none => s
   | some T =>
@@ -278,14 +328,14 @@ def updateRow (tx t : Nat) (upd : List (Nat × Int)) (s : State) (i : Nat) : Sta
         rows := T.rows.set i { r with vals := applyUpd upd r.vals } }
       setTable s1 t T'
 
-def txUpdate (s : State) (tx t : Nat) (cond : Cond) (upd : List (Nat × Int)) : State × Res :=
+def txUpdate (s : State) (tx t : Nat) (cond : Cond) (upd : List (Nat × Val)) : State × Res :=
   match gate s tx with
   | some e => (s, .err e)
   | none =>
     match s.tables t with
     | none => (s, .err .tableNotFound)
     | some T =>
-      if upd.any (fun p => decide (p.1 ≥ T.ncols)) then (s, .err .columnNotFound)
+      if updBad T upd then (s, .err (updErr T upd))
       else
         let rows := matching T cond
         if lockBlocked s tx t rows then (s, .err .lockConflict)
@@ -331,23 +381,23 @@ def slabDelete (T : Table) (i : Nat) : List Row :=
   | none => T.rows
 
 /-- `slab.restore_row`: `RowNotFound` (= `none`) unless the row is alive -/
-def restoreRow (T : Table) (i : Nat) (old : List Int) : Option (List Row) :=
+def restoreRow (T : Table) (i : Nat) (old : List Val) : Option (List Row) :=
   match T.rows[i]? with
   | some r => if r.alive ∧ old.length = T.ncols then some (T.rows.set i { r with vals := old }) else none
   | none => none
 
 /-- `slab.restore_deleted_row`: `RowNotFound` (= `none`) unless the row exists and is dead -/
-def restoreDeletedRow (T : Table) (i : Nat) (old : List Int) : Option (List Row) :=
+def restoreDeletedRow (T : Table) (i : Nat) (old : List Val) : Option (List Row) :=
   match T.rows[i]? with
   | some r => if !r.alive ∧ old.length = T.ncols then some (T.rows.set i { alive := true, vals := old }) else none
   | none => none
 
 /-- `index_remove; index_add` of one recorded change, only `if has_index(table, column)` -/
-def undoChange (on : List Nat) (i : Nat) (es : List Entry) (p : Nat × Int × Int) : List Entry :=
+def undoChange (on : List Nat) (i : Nat) (es : List Entry) (p : Nat × Val × Val) : List Entry :=
   if p.1 ∈ on then idxAdd (p.1, p.2.1, i) (idxRemove (p.1, p.2.2, i) es) else es
 
 /-- `index_add` of one recorded entry, only `if has_index(table, column)` -/
-def undoReadd (on : List Nat) (i : Nat) (es : List Entry) (p : Nat × Int) : List Entry :=
+def undoReadd (on : List Nat) (i : Nat) (es : List Entry) (p : Nat × Val) : List Entry :=
   if p.1 ∈ on then idxAdd (p.1, p.2, i) es else es
 
 /-- `apply_undo_entry` on one table; returns the table and the number of collected errors -/
@@ -401,19 +451,19 @@ def finishAuto (p : State × Res) (tx : Nat) : State × Res :=
   | .err e => ((rollback p.1 tx).1, .err e)
   | r => ((commit p.1 tx).1, r)
 
-def insert (s : State) (t : Nat) (vals : List Int) : State × Res :=
+def insert (s : State) (t : Nat) (vals : List Val) : State × Res :=
   match s.tables t with
   | none => (s, .err .tableNotFound)
   | some T =>
-    if vals.length ≠ T.ncols then (s, .err .badInput)
+    if rowBad T vals then (s, .err .badInput)
     else
       finishAuto (txInsert (begin s).1 (begin s).2 t vals) (begin s).2
 
-def update (s : State) (t : Nat) (cond : Cond) (upd : List (Nat × Int)) : State × Res :=
+def update (s : State) (t : Nat) (cond : Cond) (upd : List (Nat × Val)) : State × Res :=
   match s.tables t with
   | none => (s, .err .tableNotFound)
   | some T =>
-    if upd.any (fun p => decide (p.1 ≥ T.ncols)) then (s, .err .columnNotFound)
+    if updBad T upd then (s, .err (updErr T upd))
     else
       finishAuto (txUpdate (begin s).1 (begin s).2 t cond upd) (begin s).2
 
@@ -425,8 +475,8 @@ def delete (s : State) (t : Nat) (cond : Cond) : State × Res :=
 
 /-! ## DDL -/
 
-def createTable (s : State) (ncols : Nat) : State × Res :=
-  ({ setTable s s.ntables { ncols := ncols, rows := [], hashOn := [], btreeOn := [], hashE := [], btreeE := [] }
+def createTable (s : State) (ncols : Nat) (nullable : List Nat) : State × Res :=
+  ({ setTable s s.ntables { ncols := ncols, nullable := nullable, rows := [], hashOn := [], btreeOn := [], hashE := [], btreeE := [] }
      with ntables := s.ntables + 1 }, .okN s.ntables)
 
 /-- entries `create_index` / `create_btree_index` add: one per live row (scan_all) -/
@@ -508,11 +558,11 @@ def cleanupTxs (s : State) : State × Res :=
 /-! ## queries -/
 
 /-- `index_lookup`: the bucket of `v` when the hash index on `c` exists -/
-def hashCands (T : Table) (c : Nat) (v : Int) : Option (List Nat) :=
+def hashCands (T : Table) (c : Nat) (v : Val) : Option (List Nat) :=
   if c ∈ T.hashOn then some ((T.hashE.filter fun e => e.1 == c && e.2.1 == v).map (·.2.2)) else none
 
 /-- `btree_range_lookup`: the ids under the keys satisfying `p` when the b-tree index on `c` exists -/
-def btCands (T : Table) (c : Nat) (p : Int → Bool) : Option (List Nat) :=
+def btCands (T : Table) (c : Nat) (p : Val → Bool) : Option (List Nat) :=
   if c ∈ T.btreeOn then some ((T.btreeE.filter fun e => e.1 == c && p e.2.1).map (·.2.2)) else none
 
 /-- what `try_index_lookup` returns: candidate ids (with multiplicity) when an index serves the
@@ -524,10 +574,10 @@ def candidates (T : Table) (cond : Cond) : Option (List Nat) :=
   | .idEq _ => none
   | .eq c v => hashCands T c v
   | .ne _ _ => none
-  | .lt c v => btCands T c (fun k => decide (k < v))
-  | .le c v => btCands T c (fun k => decide (k ≤ v))
-  | .gt c v => btCands T c (fun k => decide (k > v))
-  | .ge c v => btCands T c (fun k => decide (k ≥ v))
+  | .lt c v => btCands T c (fun k => Val.keyLt k v)      -- `btree.range(..target)`
+  | .le c v => btCands T c (fun k => Val.keyLe k v)      -- `btree.range(..=target)`
+  | .gt c v => btCands T c (fun k => Val.keyLt v k)      -- `(Excluded(target), Unbounded)`
+  | .ge c v => btCands T c (fun k => Val.keyLe v k)      -- `btree.range(target..)`
   | .and a b =>
     match candidates T a with
     | some cands => some cands
@@ -535,25 +585,25 @@ def candidates (T : Table) (cond : Cond) : Option (List Nat) :=
   | .or _ _ => none
 
 /-- full-scan answer: live rows satisfying the condition, by ascending id -/
-def scanAnswer (T : Table) (cond : Cond) : List (Nat × List Int) :=
+def scanAnswer (T : Table) (cond : Cond) : List (Nat × List Val) :=
   (matching T cond).filterMap fun i => (T.rows[i]?).map fun r => (i, r.vals)
 
 /-- index-path answer: every candidate id that is alive and passes the re-check, once per
     occurrence among the candidates, sorted by id (`sort_by_key(id)`, stable) -/
-def indexAnswer (T : Table) (cond : Cond) (cands : List Nat) : List (Nat × List Int) :=
+def indexAnswer (T : Table) (cond : Cond) (cands : List Nat) : List (Nat × List Val) :=
   (matching T cond).flatMap fun i =>
     match T.rows[i]? with
     | some r => List.replicate (cands.count i) (i, r.vals)
     | none => []
 
 /-- `select(table, cond)` -/
-def select (T : Table) (cond : Cond) : List (Nat × List Int) :=
+def select (T : Table) (cond : Cond) : List (Nat × List Val) :=
   match candidates T cond with
   | some cands => indexAnswer T cond cands
   | none => scanAnswer T cond
 
 inductive SelRes where
-  | rows (r : List (Nat × List Int))
+  | rows (r : List (Nat × List Val))
   | err (e : Err)
 deriving DecidableEq, Repr
 
@@ -582,13 +632,13 @@ inductive Op where
   | begin
   | commit (tx : Nat)
   | rollback (tx : Nat)
-  | txInsert (tx t : Nat) (vals : List Int)
-  | txUpdate (tx t : Nat) (cond : Cond) (upd : List (Nat × Int))
+  | txInsert (tx t : Nat) (vals : List Val)
+  | txUpdate (tx t : Nat) (cond : Cond) (upd : List (Nat × Val))
   | txDelete (tx t : Nat) (cond : Cond)
-  | insert (t : Nat) (vals : List Int)
-  | update (t : Nat) (cond : Cond) (upd : List (Nat × Int))
+  | insert (t : Nat) (vals : List Val)
+  | update (t : Nat) (cond : Cond) (upd : List (Nat × Val))
   | delete (t : Nat) (cond : Cond)
-  | createTable (ncols : Nat)
+  | createTable (ncols : Nat) (nullable : List Nat)
   | createIndex (t c : Nat)
   | createBtree (t c : Nat)
   | dropIndex (t c : Nat)
@@ -609,7 +659,7 @@ def step (s : State) (op : Op) : State × Res :=
   | .insert t vals => insert s t vals
   | .update t cond upd => update s t cond upd
   | .delete t cond => delete s t cond
-  | .createTable n => createTable s n
+  | .createTable n nl => createTable s n nl
   | .createIndex t c => createIndex s t c
   | .createBtree t c => createBtree s t c
   | .dropIndex t c => dropIndex s t c
@@ -630,14 +680,14 @@ def runRes (s : State) : List Op → List Res
   `tx_insert` took no row lock; the undo of an update / delete wrote hash AND b-tree entries for
   every recorded column whether or not that index existed. -/
 
-def txInsertOld (s : State) (tx t : Nat) (vals : List Int) : State × Res :=
+def txInsertOld (s : State) (tx t : Nat) (vals : List Val) : State × Res :=
   match gate s tx with
   | some e => (s, .err e)
   | none =>
     match s.tables t with
     | none => (s, .err .tableNotFound)
     | some T =>
-      if vals.length ≠ T.ncols then (s, .err .badInput)
+      if rowBad T vals then (s, .err .badInput)
       else
         let id := T.rows.length
         let hashE := T.hashOn.foldl (fun es c => idxAdd (c, val vals c, id) es) T.hashE
@@ -654,7 +704,7 @@ def applyUndoTOld (T : Table) (u : Undo) : Table × Nat :=
               btreeE := idx.foldl (fun es p => idxRemove (p.1, p.2, i) es) T.btreeE }, 0)
   | .updated _ i old chg =>
     let rr := restoreRow T i old
-    let f := fun (es : List Entry) (p : Nat × Int × Int) => idxAdd (p.1, p.2.1, i) (idxRemove (p.1, p.2.2, i) es)
+    let f := fun (es : List Entry) (p : Nat × Val × Val) => idxAdd (p.1, p.2.1, i) (idxRemove (p.1, p.2.2, i) es)
     ({ T with rows := rr.getD T.rows, hashE := chg.foldl f T.hashE, btreeE := chg.foldl f T.btreeE },
      if rr.isSome then 0 else 1)
   | .deleted _ i old idx =>
@@ -682,19 +732,19 @@ def finishAutoOld (p : State × Res) (tx : Nat) : State × Res :=
   | .err e => ((rollbackOld p.1 tx).1, .err e)
   | r => ((commit p.1 tx).1, r)
 
-def insertOld (s : State) (t : Nat) (vals : List Int) : State × Res :=
+def insertOld (s : State) (t : Nat) (vals : List Val) : State × Res :=
   match s.tables t with
   | none => (s, .err .tableNotFound)
   | some T =>
-    if vals.length ≠ T.ncols then (s, .err .badInput)
+    if rowBad T vals then (s, .err .badInput)
     else
       finishAutoOld (txInsertOld (begin s).1 (begin s).2 t vals) (begin s).2
 
-def updateOld (s : State) (t : Nat) (cond : Cond) (upd : List (Nat × Int)) : State × Res :=
+def updateOld (s : State) (t : Nat) (cond : Cond) (upd : List (Nat × Val)) : State × Res :=
   match s.tables t with
   | none => (s, .err .tableNotFound)
   | some T =>
-    if upd.any (fun p => decide (p.1 ≥ T.ncols)) then (s, .err .columnNotFound)
+    if updBad T upd then (s, .err (updErr T upd))
     else
       finishAutoOld (txUpdate (begin s).1 (begin s).2 t cond upd) (begin s).2
 
@@ -767,13 +817,13 @@ def stepNoOwnerCheck (s : State) (op : Op) : State × Res :=
     match s.tables t with
     | none => (s, .err .tableNotFound)
     | some T =>
-      if vals.length ≠ T.ncols then (s, .err .badInput)
+      if rowBad T vals then (s, .err .badInput)
       else finishAutoNoOwnerCheck (txInsert (begin s).1 (begin s).2 t vals) (begin s).2
   | .update t cond upd =>
     match s.tables t with
     | none => (s, .err .tableNotFound)
     | some T =>
-      if upd.any (fun p => decide (p.1 ≥ T.ncols)) then (s, .err .columnNotFound)
+      if updBad T upd then (s, .err (updErr T upd))
       else finishAutoNoOwnerCheck (txUpdate (begin s).1 (begin s).2 t cond upd) (begin s).2
   | .delete t cond =>
     match s.tables t with
@@ -800,7 +850,7 @@ def runResNoOwnerCheck (s : State) : List Op → List Res
   depends on the order.  (Non-transactional statements roll back only a transaction whose statement
   failed before recording anything, so only `Op.rollback` differs.) -/
 
-def undoChangeAddBeforeRemove (on : List Nat) (i : Nat) (es : List Entry) (p : Nat × Int × Int) : List Entry :=
+def undoChangeAddBeforeRemove (on : List Nat) (i : Nat) (es : List Entry) (p : Nat × Val × Val) : List Entry :=
   if p.1 ∈ on then idxRemove (p.1, p.2.2, i) (idxAdd (p.1, p.2.1, i) es) else es
 
 def applyUndoTAddBeforeRemove (T : Table) (u : Undo) : Table × Nat :=
